@@ -18,3 +18,19 @@ Proof. exact recover_never_panics. Qed.
 (* any list of shares: no y coordinates, thresholds 0 and 2^32-1, anything *)
 Theorem C09_adss_recover : forall (F : list N -> list N) (shs : list ashare), arecover F shs <> Panic.
 Proof. exact arecover_never_panics. Qed.
+
+(* the WASM grouping call: any string of share fields, any epoch *)
+From StarV Require Import Strobe Wasm WasmFacts Ppoprf.
+Theorem C09_group_shares : forall (F : list N -> list N) (ser epoch : bytes), group_shares F ser epoch <> Panic.
+Proof. exact group_shares_total. Qed.
+
+(* The ppoprf loaders, Server::eval and Client::verify are modelled as functions into sums / options / bool with
+   no Panic alternative (after the fix commits the Rust has no unwrap left on those paths; the malformed streams
+   are run under catch_unwind on every check).  One function that consumes another party's data is different:
+   Client::unblind returns a bare point and unwraps the decompression of the server's answer, so it panics on an
+   undecodable evaluation output.  Refuted clause, listed as known finding C09/unblind-undecodable (a repair has
+   to change the function's signature, which the existing tests call). *)
+Theorem C09_unblind_refuted : forall (G : grp) (p : bytes) (r : Z), g_valid G p = false -> client_unblind G p r = Panic.
+Proof. intros G p r H. unfold client_unblind. rewrite H. reflexivity. Qed.
+Theorem C09_unblind_only_then : forall (G : grp) (p : bytes) (r : Z), g_valid G p = true -> client_unblind G p r <> Panic.
+Proof. intros G p r H. unfold client_unblind. rewrite H. discriminate. Qed.
